@@ -9,6 +9,7 @@ from __future__ import annotations
 
 import ast
 
+from ..sites import apply_fn, worker_fn
 from ..model import AnalysisError, FuncInfo, bind_args, call_name, dotted_name, last_attr, names_in, unparse, walk_no_nested
 from ..prov import Prov
 
@@ -217,7 +218,7 @@ def rule_max_workers(ctx, rep):
         "parameter, which run() binds to argv.max_workers",
         min_instances=3,
     )
-    fn = ctx.prog.func(APPLY)
+    fn = apply_fn(ctx)
     r = ctx.resolver(fn)
     pools = [n for n in walk_no_nested(fn.node) if isinstance(n, ast.Call) and (r.callee_qname(n) or "").endswith(("ThreadPoolExecutor", "ProcessPoolExecutor"))]
     if not pools:
@@ -255,7 +256,7 @@ def rule_ordered_merge(ctx, rep):
         "as_completed/submit gathering; the files list derives from match_files() whose result is sorted",
         min_instances=3,
     )
-    fn = ctx.prog.func(APPLY)
+    fn = apply_fn(ctx)
     pv = Prov(ctx, fn)
     prs = [n for n in walk_no_nested(fn.node) if isinstance(n, ast.Call) and last_attr(n.func) == "process_results"]
     if not prs:
@@ -304,6 +305,7 @@ def rule_worker_isolation(ctx, rep):
     muts = _context_mutators(ctx)
     if len(muts) < 5:
         raise AnalysisError(f"only {len(muts)} mutators of CodemodExecutionContext recognised")
+    WORKER = worker_fn(ctx).qname
     reach = ctx.cg.reachable([WORKER])
     mut_q = {m.qname for m in muts.values()}
     for q in sorted(reach):
